@@ -137,44 +137,7 @@ def cases(draw, tier):
     async_mode = draw(st.sampled_from(["none", "none", "none", "all"]))
     spec = draw(gen.machine_spec(max_states=4, max_extra=5, providers=provs, async_mode=async_mode, sends=draw(st.sampled_from([False, False, True])),
                                  attach=("conv", "name", "func")))
-    n = len(spec["states"])
-    nonfinal = [i for i, s in enumerate(spec["states"]) if not s["final"]]
-    bundles = []
-
-    def guards():
-        c = draw(st.lists(st.sampled_from([g["name"] for g in spec["guards"]] or ["g0"]), max_size=1, unique=True)) if spec["guards"] else []
-        return c
-
-    def add(src, dst, events, cond, unless, internal=False):
-        spec["trans"].append({"src": src, "dst": dst, "events": list(events), "internal": internal, "cond": list(cond), "unless": list(unless)})
-        return len(spec["trans"]) - 1
-
-    kind = draw(st.sampled_from([None, "multi-target", "multi-source", "any", "any"]))
-    if kind == "multi-target" and n >= 2:
-        src = draw(st.sampled_from(nonfinal))
-        dsts = draw(st.lists(st.integers(0, n - 1), min_size=2, max_size=min(3, n), unique=True))
-        evs = draw(st.lists(st.sampled_from(spec["events"] + ["bundle"]), min_size=1, max_size=2, unique=True))
-        c = guards()
-        ks = [add(src, d, evs, c, []) for d in dsts]
-        bundles.append({"k": ks, "how": "multi-target"})
-    elif kind == "multi-source" and len(nonfinal) >= 2:
-        srcs = draw(st.lists(st.sampled_from(nonfinal), min_size=2, max_size=min(3, len(nonfinal)), unique=True))
-        dst = draw(st.integers(0, n - 1))
-        evs = draw(st.lists(st.sampled_from(spec["events"] + ["bundle"]), min_size=1, max_size=2, unique=True))
-        c = guards()
-        ks = [add(s_, dst, evs, c, []) for s_ in srcs]
-        bundles.append({"k": ks, "how": "multi-source"})
-    elif kind == "any":
-        dst = draw(st.integers(0, n - 1))
-        c, u = guards(), []
-        if spec["guards"] and draw(st.booleans()):
-            u = [x for x in [draw(st.sampled_from([g["name"] for g in spec["guards"]]))] if x not in c and sum(1 for g in spec["guards"] if g["name"] == x) == 1]
-        ks = [add(s_, dst, ["anyev"], c, u) for s_ in nonfinal]
-        bundles.append({"k": ks, "how": "any"})
-    for t in spec["trans"]:
-        for e in t["events"]:
-            if e not in spec["events"]:
-                spec["events"].append(e)
+    bundles = draw(gen.add_bundle(spec))
     inline_state_cbs = any(c["scope"][0] == "state" and c["attach"] != "conv" for c in spec["cbs"])
     is_async = gen.is_async_spec(spec)
     cfg = {"rtc": True if is_async else draw(st.sampled_from([True, True, False])), "allow": draw(st.booleans()), "driver": "sync", "activate": True}
